@@ -480,9 +480,10 @@ def draw_nodes(
         raise XGIError(f"Node {err} has no position.") from err
 
     # convert all formats to ndarray
-    node_size = _draw_arg_to_arr(node_size)
-    node_fc = _draw_arg_to_arr(node_fc)
-    node_lw = _draw_arg_to_arr(node_lw)
+    node_ids = list(H.nodes)
+    node_size = _draw_arg_to_arr(node_size, node_ids)
+    node_fc = _draw_arg_to_arr(node_fc, node_ids)
+    node_lw = _draw_arg_to_arr(node_lw, node_ids)
 
     # avoid matplotlib scatter UserWarning "Parameters 'cmap' will be ignored"
     if isinstance(node_fc, str) or (
@@ -712,7 +713,7 @@ def draw_hyperedges(
         edge_ec = edges.size
 
     # convert all formats to ndarray
-    dyad_lw = _draw_arg_to_arr(dyad_lw)
+    dyad_lw = _draw_arg_to_arr(dyad_lw, list(dyads))
 
     # parse colors
     dyad_color, dyad_c_to_map = _parse_color_arg(dyad_color, list(dyads))
